@@ -11,6 +11,7 @@ Lemma io_recv_spec waitall n script stream d s' sc' :
   recv_n n stream = Some (d, s') .
 Proof.
   unfold io_recv. intros H.
+  destruct (Nlen stream <? n) eqn:Hguard; [discriminate|].
   destruct (r_res (receive_data errno_retries cap_nat waitall (N.to_nat n) script stream)) eqn:E; try discriminate.
   injection H as <- <- <-.
   destruct (recv_exact errno_retries cap_nat waitall (N.to_nat n) script stream d0 E) as (Hd & Hs & Hl).
